@@ -156,6 +156,37 @@ def case_harness(rng: Any, ctx: Ctx) -> None:
         guarded('C08.tags', lambda o=o: judge_foreign(o, f'{kind}:{variant}', inverse_of=mats[kind].T if 'T' in variant else mats[kind]))
 
 
+def case_harness_complex(rng: Any, ctx: Ctx) -> None:
+    """Semidefinite-decorated operators on complex data: Hermitian, NOT symmetric.  Whatever the tags answer must be true of the
+    complex matrix (symmetric means M = M^T without conjugation, and A.T acting as M^T)."""
+    import jax
+    import jax.numpy as jnp
+    n = int(rng.integers(2, 4))
+    b = rng.integers(-3, 4, size=(n, n)) + 1j * rng.integers(-3, 4, size=(n, n))
+    h = b @ b.conj().T + np.eye(n)                       # Hermitian positive definite, complex off-diagonal entries
+    kind = gen.pick(rng, ['psd', 'nsd'])
+    m = h if kind == 'psd' else -h
+    op = harness_classes()[kind](jnp.asarray(m, dtype=jnp.complex64), jax.ShapeDtypeStruct((n,), jnp.complex64))
+    LOG.count('C08.harness', f'{kind}:complex')
+
+    def judge_c() -> None:
+        tags = {t: bool(fn(op)) for t, fn in TAGS.items()}
+        LOG.evaluated('C08.tags')
+        tol = 1e-4 * (1 + np.abs(m).max())
+        if tags['symmetric'] and not np.allclose(m, m.T, atol=tol):
+            LOG.violation('C08', 'C08.tags', f'{type(op).__name__}/symmetric/decorated-{kind}-complex',
+                          'a Hermitian (not symmetric) complex operator answers symmetric', m=np.array2string(m, precision=2))
+        if tags['diagonal'] and np.abs(m - np.diag(np.diag(m))).max() > tol:
+            LOG.violation('C08', 'C08.tags', f'{type(op).__name__}/diagonal/decorated-{kind}-complex', 'answers diagonal', m=np.array2string(m, precision=2))
+        # the transpose acts as M^T (no conjugation)
+        x = jnp.asarray(rng.integers(-3, 4, size=n) + 1j * rng.integers(-3, 4, size=n), dtype=jnp.complex64)
+        got = np.asarray(op.T.mv(x))
+        if not np.allclose(got, m.T @ np.asarray(x), atol=1e-3 * (1 + np.abs(m).max() * 10)):
+            LOG.violation('C08', 'C08.tags', f'{type(op).__name__}/transpose/decorated-{kind}-complex',
+                          'A.T of a semidefinite-decorated complex operator does not act as the transposed matrix')
+    guarded('C08.tags', judge_c)
+
+
 def judge_foreign(op: Any, label: str, inverse_of: Any = None) -> None:
     """Tags of an operator built from a harness class (or a library wrapper around one), judged on its dense matrix
     (the matrix of a solver-based inverse is the NumPy inverse of the operand: no solve needed)."""
@@ -189,6 +220,9 @@ def judge_foreign(op: Any, label: str, inverse_of: Any = None) -> None:
 
 def case(rng: Any, ctx: Ctx, index: int) -> None:
     if index % 6 == 5:
+        if index % 18 == 5:
+            case_harness_complex(rng, ctx)
+            return
         case_harness(rng, ctx)
         return
     s, op = rand_operator(rng, ctx, atoms=0.7, lazy_inverse=False, index=index)
